@@ -859,3 +859,26 @@ mod tests {
         test_tokio(AlwaysFailTransport, run_test);
     }
 }
+
+/// Verification hooks (only with `--cfg libp2p_verif`): construct the transport around an arbitrary
+/// [`Resolver`] implementation (scripted resolver in the verification harness).
+#[cfg(libp2p_verif)]
+pub mod verif {
+    use std::sync::Arc;
+
+    pub use hickory_resolver;
+    use parking_lot::Mutex;
+
+    pub use super::Resolver;
+
+    pub const MAX_DIAL_ATTEMPTS: usize = super::MAX_DIAL_ATTEMPTS;
+    pub const MAX_DNS_LOOKUPS: usize = super::MAX_DNS_LOOKUPS;
+    pub const MAX_TXT_RECORDS: usize = super::MAX_TXT_RECORDS;
+
+    pub fn with_resolver<T, R>(inner: T, resolver: R) -> super::Transport<T, R> {
+        super::Transport {
+            inner: Arc::new(Mutex::new(inner)),
+            resolver,
+        }
+    }
+}
